@@ -254,7 +254,7 @@ for n, w in (("c13_mp_one", "mpmc, one receiver handle"), ("c13_mp_two_handles",
 # ---- blocking receive
 W = "scen_wait"
 WRULES = queue_rules(retry=4, extra=[(r'BlockingWait.*::wait', 4), (r'BusyWait.*::wait', 16), (r'YieldingWait.*::wait', 12),
-                                      (r'InnerRecv.*::recv', 4), (r'cv_wait_impl', 7)])
+                                      (r'InnerRecv.*::recv', 8), (r'cv_wait_impl', 7)])
 for n, w in (("c08_mp_blk00_send", "mpmc BlockingWait(0,0): blocked recv vs one send"),
              ("c08_bc_blk00_senddrop", "broadcast BlockingWait(0,0): blocked recv vs send + drop of the last sender"),
              ("c08_mp_blk00_drop", "mpmc BlockingWait(0,0): blocked recv vs drop of the last sender"),
@@ -277,7 +277,7 @@ M = "scen_mem"
 FP = [(r'ToFree.*6delete', [r'ToFree.*3new.*7do_free'])]
 MEMRULES = queue_rules(retry=4, streams=3, ring=3, extra=[
     (r'ReadCursor::add_stream', 4), (r'ReadCursor::remove_reader', 4),
-    (r'MemoryManagerInner.*try_freeing', 8), (r'MemoryManagerInner.* as std::ops::Drop>::drop', 30),
+    (r'MemoryManagerInner.*try_freeing', 26), (r'MemoryManagerInner.* as std::ops::Drop>::drop', 30), (r'verif_preload', 24),
     (r'do_free', 3), (r'swap_nonoverlapping|swap_simple|swap_chunk', 6),
     (r'Vec.*clone|to_vec|retain|extend|spec_|Drain|drain|process_loop', 8)])
 for n, w in (("c17_teardown_mp", "mpmc"), ("c17_teardown_bc_stream", "broadcast with an added stream"), ("c17_teardown_bc_clone", "broadcast N=1 with cloned sender and receiver")):
@@ -373,3 +373,19 @@ for n, w in (("c15_mpfut_direct_recv", "mpmc futures receiver: direct blocking r
 H("c14_bc_drop_stream_repoll", FU, "C14", ["C14", "C11"], "quick",
   "broadcast N=1, two streams, ring full because of stream 1 only, sink task parked: the drop of stream 1's last handle is preempted everywhere by the executor re-polling the sink task (only once it has been notified); afterwards the task must have got its value in or have been woken after its last call began",
   "N=1, budget 1", rules=FUTRULES + [(r'ReadCursor::add_stream', 3), (r'ReadCursor::remove_reader', 3), (r'Vec.*clone|to_vec|retain|extend|spec_', 5)])
+for n, w, t in (("c08_mp_blk00_send_lap", "mpmc N=1 BlockingWait(0,0), lapped ring: blocked recv vs one send", "quick"),
+                ("c08_bc_blk00_senddrop_lap", "broadcast N=2 BlockingWait(0,0), lapped ring: blocked recv vs send + drop of the last sender", "quick"),
+                ("c08_mp_blk00_drop_lap", "mpmc N=1 BlockingWait(0,0), lapped ring: blocked recv vs drop of the last sender", "quick"),
+                ("c08_bc_blk00_sibling_lap", "broadcast N=1 BlockingWait(0,0), lapped ring: blocked recv, two sends (the ring is lapped again), a sibling consumer takes one value", "quick"),
+                ("c08_mp_blk00_lonesender_lap", "mpmc N=1 BlockingWait(0,0), lapped ring: blocked recv; the other sender handle is dropped, then the remaining (formerly multi-writer) sender sends", "quick"),
+                ("c08_bc_blk11_lonesender_lap", "broadcast N=2 BlockingWait(1,1), lapped ring: blocked recv; other sender dropped, remaining sender sends", "thorough"),
+                ("c08_bc_blk20_view_lap", "broadcast N=1 BlockingWait(2,0), lapped ring: blocked recv_view vs one send", "thorough")):
+    H(n, W, "C08", ["C08", "C07", "C12"], t,
+      w + "; sender/sibling operations run at every preemption point of the waiter and inside the condvar wait; stuck detector; witness: the receiver really slept",
+      "budget 3, up to 2 ops per site", rules=WRULES)
+for n in ("c08_mp_blk00_send", "c08_bc_blk00_senddrop", "c08_mp_blk00_drop", "c08_bc_blk00_sibling_n1"):
+    HARNESSES[n]["tier"] = "thorough"
+
+H("c15_bc_fresh_poll", FU, "C15", ["C15", "C14"], "quick",
+  "broadcast futures, FRESH never-wrapped empty queue: Stream::poll must return NotReady (or the value once the sink task sent it) - it must not spin inside the call",
+  "N=2, budget 1; the loop of Stream::poll has bound 4 with an unwinding assertion", rules=FUTRULES, unwind_violation="C15")
